@@ -39,3 +39,20 @@ func vdist(id, probed string) (float64, bool) {
 	m.MeasureNonnegativeDistance()
 	return m.Distance, true
 }
+
+// segDistFresh: what the corridor's measuring loop computes for one candidate — the segment's two end points and the voxel's eight
+// vertices, each through geodesy.GeocentricFromGeodetic{lon, lat, lat} — but with a closest.Measure of its own (the loop reuses one
+// Measure for all candidates). Oracle "gjk": decides whether a voxel kept beyond the radius is owed to closest_go itself.
+func segDistFresh(lon1, lat1, lon2, lat2 float64, id string) (float64, bool) {
+	hull, ok := hullOf(id)
+	if !ok {
+		return 0, false
+	}
+	a := geodesy.GeocentricFromGeodetic(geodesy.Geodetic{lon1, lat1, lat1})
+	b := geodesy.GeocentricFromGeodetic(geodesy.Geodetic{lon2, lat2, lat2})
+	m := closest.Measure{}
+	m.ConvexHulls[0] = []*mgl64.Vec3{(*mgl64.Vec3)(&a), (*mgl64.Vec3)(&b)}
+	m.ConvexHulls[1] = hull
+	m.MeasureNonnegativeDistance()
+	return m.Distance, true
+}
